@@ -7,12 +7,22 @@ import (
 func init() { props["C10"] = runC10 }
 
 func runC10(r *Run, rng *rand.Rand, thorough bool) {
-	r.Rule = "cross-verification: proofs made by the Go provers (seeded reader) and by the Lean model's provers (harness coins) are judged by BOTH verifiers; non-trivial = distinct verify op on an honest proof; direct assertions: the Go verifier accepts every honest proof, also after Bytes()/FromBytes, for witnesses {1, q-1, leading-zero, random, 0}, every vendored parameter pair, sessions {empty, 1 byte, 32 bytes, 1 kB}"
+	r.Rule = "cross-verification: proofs made by the Go provers (seeded reader) and by the Lean model's provers (harness coins) are judged by BOTH verifiers; non-trivial = distinct verify op on an honest proof; direct assertions: the Go verifier accepts every honest proof, every response of a Go-made range / Bob / no-small-factor proof is as long as the mask that hides the witness in it, also after Bytes()/FromBytes, for witnesses {1, q-1, leading-zero, random, 0}, every vendored parameter pair, sessions {empty, 1 byte, 32 bytes, 1 kB}"
 	cases := honestCases(r, rng, thorough)
 	for _, c := range cases {
 		g, _, _ := r.Do(c.sys+"/"+c.origin, true, c.op, c.args...)
 		r.Assert(g == "accept", c.sys+"/honest-"+c.origin, "honest-proof-accepted", func() string { return c.sys + " witness=" + c.witness + " -> " + g })
 		r.Traces++
+		// Go-made proofs: every response is as long as the mask that hides the witness in it
+		if c.origin == "go-prover" && len(c.proof) > 0 && argKind(c.args[c.proof[0]]) == "list" {
+			qb := 256
+			if c.args[0] == "ed" {
+				qb = 253
+			}
+			if d := maskDeficit(c.sys, dInts(c.args[c.proof[0]]), qb); d != "" || c.sys == "range" || c.sys == "bob" || c.sys == "bobwc" || c.sys == "fac" {
+				r.Assert(d == "", c.sys+"/response-mask", "responses-are-masked-over-their-full-range", func() string { return c.sys + ": " + d })
+			}
+		}
 		if c.parts > 0 {
 			parts := c.wire(c.args)
 			wargs := []string{eInts(parts), itoa(c.parts)}
